@@ -100,7 +100,9 @@ func Unmarshal(data []byte, v any) error {
 	// Avoids filling out half a data structure
 	// before discovering a JSON syntax error.
 	d := ds.Get().(*decodeState)
+	verifAcquireDec(d)
 	defer ds.Put(d)
+	defer verifReleaseDec(d)
 	//var d decodeState
 	d.useNumber = true
 	err := checkValid(data, &d.scan)
@@ -124,7 +126,9 @@ func UnmarshalWithKeys(data []byte, v any) ([]string, error) {
 	// before discovering a JSON syntax error.
 
 	d := ds.Get().(*decodeState)
+	verifAcquireDec(d)
 	defer ds.Put(d)
+	defer verifReleaseDec(d)
 	//var d decodeState
 	d.useNumber = true
 	err := checkValid(data, &d.scan)
@@ -146,7 +150,9 @@ func UnmarshalValid(data []byte, v any) error {
 	// Avoids filling out half a data structure
 	// before discovering a JSON syntax error.
 	d := ds.Get().(*decodeState)
+	verifAcquireDec(d)
 	defer ds.Put(d)
+	defer verifReleaseDec(d)
 	//var d decodeState
 	d.useNumber = true
 
@@ -160,7 +166,9 @@ func UnmarshalValidWithKeys(data []byte, v any) ([]string, error) {
 	// before discovering a JSON syntax error.
 
 	d := ds.Get().(*decodeState)
+	verifAcquireDec(d)
 	defer ds.Put(d)
+	defer verifReleaseDec(d)
 	//var d decodeState
 	d.useNumber = true
 
